@@ -13,6 +13,7 @@ import (
 
 	"google.golang.org/grpc"
 	"google.golang.org/grpc/credentials/insecure"
+	"google.golang.org/grpc/metadata"
 
 	"github.com/KevoDB/kevo/pkg/engine"
 	"github.com/KevoDB/kevo/pkg/replication"
@@ -208,4 +209,170 @@ func startSlowReplica(dir string, cfg drive.Cfg, primaryAddr, ownAddr string, sl
 		return nil, nil, nil, err
 	}
 	return eng, r, ap, nil
+}
+
+// nackClient is a raw replica that reads its stream and keeps sending
+// NegativeAcknowledge (and, optionally, Acknowledge) calls with its session id.
+//
+//	spam   N sender goroutines call NegativeAcknowledge every EveryMs for sequence 1, for the
+//	       last sequence received, for a sequence that does not exist yet, or a mix of them
+//	lossy  follows the replica's protocol (expected-next bookkeeping, NACK(expected) when a
+//	       message does not start at the expected sequence, acknowledgement after every applied
+//	       message) but silently drops every DropEvery-th message, so the real
+//	       gap / NACK / resend path runs while the workload writes
+type nackClient struct {
+	raw     *rawClient
+	sid     string
+	cli     rpb.WALReplicationServiceClient
+	lastSeq atomic.Uint64
+	nacks   atomic.Int64
+	nackErr atomic.Int64
+	acks    atomic.Int64
+	drops   atomic.Int64
+	stop    chan struct{}
+}
+
+func startNackClient(addr, listener string, spec NackSpec) (*nackClient, error) {
+	raw, err := dialRaw(addr, listener)
+	if err != nil {
+		return nil, err
+	}
+	md, err := raw.stream.Header()
+	if err != nil {
+		return nil, err
+	}
+	ids := md.Get("session-id")
+	if len(ids) == 0 {
+		return nil, fmt.Errorf("no session-id in the stream header")
+	}
+	n := &nackClient{raw: raw, sid: ids[0], cli: rpb.NewWALReplicationServiceClient(raw.conn), stop: make(chan struct{})}
+	ctx := metadata.NewOutgoingContext(context.Background(), metadata.Pairs("session-id", n.sid))
+	call := func(f func(context.Context) error) {
+		cctx, cancel := context.WithTimeout(ctx, 30*time.Second)
+		defer cancel()
+		if err := f(cctx); err != nil {
+			n.nackErr.Add(1)
+		}
+	}
+	nack := func(seq uint64) {
+		n.nacks.Add(1)
+		call(func(c context.Context) error {
+			_, err := n.cli.NegativeAcknowledge(c, &rpb.Nack{MissingFromSequence: seq})
+			return err
+		})
+	}
+	ack := func(seq uint64) {
+		n.acks.Add(1)
+		call(func(c context.Context) error {
+			_, err := n.cli.Acknowledge(c, &rpb.Ack{AcknowledgedUpTo: seq})
+			return err
+		})
+	}
+	switch spec.Mode {
+	case "lossy":
+		// the RPCs are issued by a worker so that the reader never stops reading
+		// (a replica that stops reading while it waits for its NACK is the
+		// stalled-reader class)
+		type rpc struct {
+			nack bool
+			seq  uint64
+		}
+		work := make(chan rpc, 256)
+		go func() {
+			for w := range work {
+				if w.nack {
+					nack(w.seq)
+				} else {
+					ack(w.seq)
+				}
+			}
+		}()
+		submit := func(w rpc) {
+			select {
+			case work <- w:
+			default:
+			}
+		}
+		go func() {
+			expected := uint64(1)
+			count := 0
+			for {
+				m, err := raw.stream.Recv()
+				if err != nil {
+					return
+				}
+				raw.msgs.Add(1)
+				if len(m.Entries) == 0 {
+					continue
+				}
+				count++
+				if spec.DropEvery > 0 && count%spec.DropEvery == 0 {
+					n.drops.Add(1)
+					continue
+				}
+				first, last := m.Entries[0].SequenceNumber, m.Entries[len(m.Entries)-1].SequenceNumber
+				if first != expected {
+					submit(rpc{true, expected})
+					continue
+				}
+				expected = last + 1
+				n.lastSeq.Store(last)
+				if spec.Ack {
+					submit(rpc{false, last})
+				}
+			}
+		}()
+	default: // spam
+		go func() {
+			for {
+				m, err := raw.stream.Recv()
+				if err != nil {
+					return
+				}
+				raw.msgs.Add(1)
+				if k := len(m.Entries); k > 0 {
+					if s := m.Entries[k-1].SequenceNumber; s > n.lastSeq.Load() {
+						n.lastSeq.Store(s)
+					}
+				}
+			}
+		}()
+		senders := spec.Senders
+		if senders < 1 {
+			senders = 1
+		}
+		for g := 0; g < senders; g++ {
+			go func(g int) {
+				i := g
+				for {
+					select {
+					case <-n.stop:
+						return
+					case <-time.After(time.Duration(spec.EveryUs) * time.Microsecond):
+					}
+					target := spec.Target
+					if target == "mix" {
+						target = []string{"first", "last", "future"}[i%3]
+					}
+					last := n.lastSeq.Load()
+					switch target {
+					case "first":
+						nack(1)
+					case "last":
+						if last == 0 {
+							last = 1
+						}
+						nack(last)
+					default:
+						nack(last + 1000)
+					}
+					if spec.Ack && i%4 == 0 && last > 0 {
+						ack(last)
+					}
+					i++
+				}
+			}(g)
+		}
+	}
+	return n, nil
 }
